@@ -43,14 +43,14 @@ func probeE2E(f []string) string {
 	conn := newDuplex(&evlog{}) // the reply stream is of no interest here
 	conn.plain = false
 	conn.async = true
-	smtp.VerifPoint = func(name string) {
+	setVerifPoint(func(name string) {
 		if name == "bdat-spawned" {
 			select {
 			case <-be.dataStarted:
 			case <-time.After(5 * time.Second):
 			}
 		}
-	}
+	})
 	done := make(chan struct{})
 	go func() {
 		defer close(done)
@@ -75,7 +75,7 @@ func probeE2E(f []string) string {
 		conn.Close()
 	}
 	be.wg.Wait()
-	smtp.VerifPoint = nil
+	setVerifPoint(nil)
 	// backend-side events only
 	var evs []string
 	for _, e := range strings.Split(log.String(), ";") {
